@@ -12,9 +12,11 @@ row = (case, type text, unit, unwind, cap, borrows, quick, note)
   shapes  = number of enumerated shapes (concrete sequence lengths / UTF-8 width
             classes, see the *_SHAPES tables in cases.rs); qshapes = subset used by quick
 """
-P = lambda case, ty, unit=1, unwind=4, cap=64, borrows=False, quick=False, note="", shapes=1, qshapes=None: dict(
+P = lambda case, ty, unit=1, unwind=4, cap=64, borrows=False, quick=False, note="", shapes=1, qshapes=None, apairs=None: dict(
     case=case, ty=ty, unit=unit, unwind=max(unwind, unit + 2), cap=cap, borrows=borrows, quick=quick, note=note,
-    shapes=shapes, qshapes=qshapes if qshapes is not None else list(range(shapes)))
+    shapes=shapes, qshapes=qshapes if qshapes is not None else list(range(shapes)),
+    # C03 allocation check: partner shape with the same deep-copy skeleton for each shape
+    apairs=apairs if apairs is not None else {s: (s + 1) % shapes for s in range(shapes)})
 
 ROWS = [
     # primitives (never padded: written with write_all, read by value)
@@ -40,8 +42,8 @@ ROWS = [
     P("Str", "String", 1, 10, borrows=True, quick=True, note="<= 2 chars, every code point, 8 width-class shapes", shapes=8, qshapes=[0, 4, 6]),
     P("BoxStr", "Box<str>", 1, 10, borrows=True, shapes=8, qshapes=[5]),
     # deep sequences
-    P("VecVecU16", "Vec<Vec<u16>>", 2, 4, borrows=True, quick=True, shapes=6, qshapes=[0, 1, 5]), P("VecString", "Vec<String>", 1, 6, borrows=True, shapes=6, qshapes=[5]),
-    P("BoxString", "Box<[String]>", 1, 6, borrows=True, shapes=6, qshapes=[4]), P("VecOptU8", "Vec<Option<u8>>", 1, 4),
+    P("VecVecU16", "Vec<Vec<u16>>", 2, 4, borrows=True, quick=True, shapes=6, qshapes=[0, 1, 5], apairs={0: 0, 1: 2, 2: 3, 3: 1, 4: 5, 5: 4}), P("VecString", "Vec<String>", 1, 6, borrows=True, shapes=6, qshapes=[5], apairs={0: 0, 1: 2, 2: 3, 3: 1, 4: 5, 5: 4}),
+    P("BoxString", "Box<[String]>", 1, 6, borrows=True, shapes=6, qshapes=[4], apairs={0: 0, 1: 2, 2: 3, 3: 1, 4: 5, 5: 4}), P("VecOptU8", "Vec<Option<u8>>", 1, 4),
     P("OptVecU16", "Option<Vec<u16>>", 2, 4, borrows=True, quick=True), P("OptVecU64", "Option<Vec<u64>>", 8, 3, borrows=True),
     # arrays
     P("ArrU32x0", "[u32;0]", 4, 3, borrows=True, quick=True, note="empty zero-copy array"), P("ArrU32x1", "[u32;1]", 4, 6, borrows=True),
@@ -71,8 +73,20 @@ ROWS = [
     # derived enums
     P("EnU8", "En<u8>", quick=True), P("EnVec", "En<Vec<u16>>", 2, 5, borrows=True), P("E1C", "E1"), P("E2C", "E2"),
     P("E5C", "E5<Vec<u8>>", 2, 5, borrows=True, quick=True),
+    # more compositions (thorough tier only)
+    P("VecChar", "Vec<char>", 4, 4, borrows=True), P("VecBool", "Vec<bool>", 1, 5, borrows=True), P("VecNzU32", "Vec<NonZeroU32>", 4, 4, borrows=True),
+    P("VecI64", "Vec<i64>", 8, 4, borrows=True), P("VecTup1U8", "Vec<(u8,)>", 1, 5, borrows=True), P("VecArrU8x0", "Vec<[u8;0]>", 1, 4, borrows=True, note="zero-sized array elements"),
+    P("VecRangeToInclU8", "Vec<RangeToInclusive<u8>>", 1, 5, borrows=True), P("VecZGenU32", "Vec<ZGen<u32>>", 4, 4, borrows=True), P("VecZConst3", "Vec<ZConst<3>>", 2, 4, borrows=True),
+    P("VecF32", "Vec<f32>", 4, 4, borrows=True), P("OptBool", "Option<bool>"), P("OptChar", "Option<char>"), P("OptRangeU32", "Option<Range<u32>>"),
+    P("CfUnitU8", "ControlFlow<(),u8>"), P("OptPhantom", "Option<PhantomData<u8>>"), P("RangeU64", "Range<u64>"), P("BoundUnit", "Bound<()>"), P("OptNzU8", "Option<NonZeroU8>"),
+    P("RangeInclU8", "RangeInclusive<u8> (not exhausted)"), P("OptString", "Option<String>", 1, 6, borrows=True, shapes=3, qshapes=[2]),
+    P("BoundVecU8", "Bound<Vec<u8>>", 1, 5, borrows=True), P("BoxVecU8", "Box<[Vec<u8>]>", 1, 4, borrows=True, shapes=4, qshapes=[3], apairs={0: 0, 1: 1, 2: 3, 3: 2}),
+    P("ArrArrU32x0", "[[u32;0];2]", 4, 3, borrows=True), P("ArrZUnitx3", "[ZUnit;3]", 1, 3, borrows=True), P("ArrZAl4x2", "[ZAl4;2]", 4, 3, borrows=True),
+    P("ArrTup2x2", "[(u16,u16);2]", 2, 6, borrows=True), P("TupZeroS2", "(ZeroS,ZeroS)", 4, 3, borrows=True), P("TupF64x2", "(f64,f64)", 8, 3, borrows=True),
+    P("HoldVecZUnit", "Hold<Vec<ZUnit>>", 1, 4, borrows=True), P("HoldArrU64x0", "Hold<[u64;0]>", 8, 3, borrows=True, note="empty over-aligned array in a parameter field"),
+    P("EnZeroS", "En<ZeroS>", 4, 3, borrows=True),
     # nesting
-    P("OptZeroS", "Option<ZeroS>", 4, 3, borrows=True), P("VecDeepS", "Vec<DeepS<Vec<u8>>>", 1, 5, borrows=True, shapes=2),
+    P("OptZeroS", "Option<ZeroS>", 4, 3, borrows=True), P("VecDeepS", "Vec<DeepS<Vec<u8>>>", 1, 5, borrows=True, shapes=2, apairs={0: 0, 1: 1}),
 ]
 BY = {r["case"]: r for r in ROWS}
 
